@@ -135,7 +135,7 @@ func ntMain(args []string) int {
 			for len(sc.Hash) < *nkeys {
 				sc.Hash = append(sc.Hash, 1)
 			}
-			ntRun(t, sc, *nkeys)
+			guarded(t, func() { ntRun(t, sc, *nkeys) })
 			nsc++
 		}
 	} else {
@@ -173,7 +173,7 @@ func ntMain(args []string) int {
 					sc.Ops = append(sc.Ops, []interface{}{"Remove", float64(k)})
 				}
 			}
-			ntRun(t, sc, *nkeys)
+			guarded(t, func() { ntRun(t, sc, *nkeys) })
 			nsc++
 		}
 	}
@@ -303,7 +303,7 @@ func nlMain(args []string) int {
 			if err := json.Unmarshal(r.Bytes(), &sc); err != nil {
 				die("script: %v", err)
 			}
-			run(sc)
+			guarded(t, func() { run(sc) })
 			nsc++
 		}
 	} else {
@@ -330,7 +330,7 @@ func nlMain(args []string) int {
 					in = nlReplay(sc.Ops)
 				}
 			}
-			run(sc)
+			guarded(t, func() { run(sc) })
 			nsc++
 		}
 	}
